@@ -440,6 +440,7 @@ PROPS["C17"] = dict(
         design("fine-grained-interleavings", "MC_C17.tla", "MC_C17_fine.cfg", workers=4, note="NoConflict, ConcurrentEqualsSequential, immutability under every interleaving of the node life cycle"),
         design("asis-effects-antivacuity", "MC_C17.tla", "MC_C17_asis.cfg", expect_rc=[12, 13], workers=2, note="with in-place effects TLC must find the racing schedule"),
         trace("free-running-stress-race-detector", ["conc", "-n", "12" if tier == "quick" else "60"], "Trace_Conc.tla", "Trace_Conc.cfg", race=True),
+        trace("hot-loop-stress-generated-models", ["conc", "-mode", "hot", "-n", "12" if tier == "quick" else "60"], "Trace_Conc.tla", "Trace_Conc.cfg"),
     ],
 )
 
